@@ -80,6 +80,11 @@ class World(WsWorld):
         else:
             cfg["Z"] = ch.pick((1, 10, 100, 1000, 5000), "max_message_size")
             deflate = True
+            # both limits on one connection: a message size limit far above anything the peer sends (so that it decides
+            # nothing on the receiving side), which the application's own over-limit sends run into
+            cfg["M"] = ch.pick((0, 60000), "maxMessage-too", (2, 1))
+            if cfg["M"]:
+                opts.update(maxMessagePayloadSize=cfg["M"])
         cfg["deflate"] = deflate
         if is_server:
             fac = aw.WebSocketServerFactory("ws://localhost:9000", **self.fw.factory_kw(self.reactor))
@@ -246,6 +251,7 @@ class World(WsWorld):
             self.script.append(("pay", pl, {"msg": k, "frame": 0}))
             self.expect.append((payload, True))
         self.emitted = 0
+        self.own_refused_left = (1 + ch.choose(2, "own-over-limit-sends")) if self.cfg["M"] else 0
 
     # --- actions ------------------------------------------------------------------------------------------------
     def extra_actions(self):
@@ -257,6 +263,8 @@ class World(WsWorld):
                 acts.append((5.0, "emit", self.emit))
             if self.local_close_planned and not self.local_closed and self.e.p._st == 3:
                 acts.append((1.0, "app-close", self.app_close))
+            if getattr(self, "own_refused_left", 0) and self.e.p._st == 3:
+                acts.append((2.5, "app-over-limit-send", lambda: self.fw.call(self, self.own_over_limit_send)))
         else:
             if self.app_ops and self.e.p._st == 3:
                 acts.append((5.0, "app-send", lambda: self.fw.call(self, self.do_send)))
@@ -268,6 +276,27 @@ class World(WsWorld):
         self.run.fault("local-close-in-flight")
         self.run.log("app", "sendClose", 1000)
         self.fw.call(self, self.e.p.sendClose, 1000)
+
+    def own_over_limit_send(self):
+        """(inflate mode with a message size limit as well) the application's own send is refused for its size: that
+        is the sending direction's business and changes nothing for what the peer sends"""
+        import random
+        from autobahn.exception import PayloadExceededError
+        self.own_refused_left -= 1
+        e = self.e
+        payload = random.Random(self.own_refused_left).randbytes(self.cfg["M"] + 700)
+        w0 = e.t.written_total
+        self.run.log("app", "over-limit-send", len(payload))
+        try:
+            e.p.sendMessage(payload, True)
+        except PayloadExceededError:
+            self.run.probe("own-send-refused-while-receiving")
+            if e.t.written_total - w0 + len(e.p.send_queue):
+                self.run.violate("C16.send-refused", "refused-but-wrote", "%d octets" % (e.t.written_total - w0))
+        except Exception as ex:  # noqa
+            self.run.violate("C16.send-refused", "unexpected-exception:%s" % type(ex).__name__, repr(ex))
+        else:
+            self.run.violate("C16.send-refused", "over-limit-send-accepted", "size %d limit %d" % (len(payload), self.cfg["M"]))
 
     def emit(self):
         kind, data, meta = self.script[self.emitted]
